@@ -111,3 +111,24 @@ Theorem C04_loop_total_example :
   c_test ex_tune_cfg = false /\ c_freq ex_tune_cfg <> 0 /\ (0 < 2 ^ 64) /\
   (forall o, In o ex_tune_hist -> wf_round o) /\ c_prec ex_tune_cfg <> 0 /\ (length ex_tune_hist <= 31)%nat.
 Proof. exact loop_total_example. Qed.
+
+(** Without an exact clock (the OS timer): if every round lasts at least [d],
+    the ceiling allows at most ceil(max/d) rounds. *)
+Theorem C04_rounds_bounded : forall c init hist out d,
+  c_test c = false -> has_samples c = true ->
+  bench_loop c init hist = Ok out ->
+  (forall j, (j <= length hist)%nat -> N.of_nat j * d <= elapsed_after c init hist j) ->
+  c04_os_sb (c_max c) d (N.of_nat (rounds_of (out_state out))) = true.
+Proof. exact rounds_bounded. Qed.
+Print Assumptions C04_rounds_bounded.
+
+Theorem C04_rounds_bounded_example :
+  forall j, (j <= length ex_hist)%nat -> N.of_nat j * 300 <= elapsed_after ex_cfg 0 ex_hist j.
+Proof. exact rounds_bounded_example. Qed.
+
+(** Time limits given as decimal seconds (command line, environment) are that
+    many nanoseconds exactly: 0.0004 s = 400 000 ns, not 0. *)
+Theorem C04_decimal_nanos_example :
+  decimal_nanos 0 [0; 0; 0; 4] = 400000 /\ decimal_nanos 1 [5] = 1500000000 /\ decimal_nanos 2 [] = 2000000000 /\
+  decimal_nanos 0 [0; 0; 1; 4; 0; 0; 0; 0; 7] = 1400007.
+Proof. exact decimal_nanos_example. Qed.
